@@ -54,3 +54,36 @@ def computeRanks (d : Doc) : List (Nat × Nat) :=
     | _ => none
 
 end PyGql.Validate
+
+namespace PyGql.Validate
+open PyGql PyGql.Validate.Spec
+
+/-! syntactic ranks only (no condition on fragment spreads, no bound by the fuel): what the termination of the
+    MEMOISED search (`Validate/OverlapMemo.lean`) rests on; `R` bounds all ranks -/
+def nodeRankSyn (s : SchemaD) (ρ : Nat → Nat) (R : Nat) : Node → Bool
+  | .selectionSet i sels =>
+    decide (2 ≤ ρ i) && decide (ρ i ≤ R) &&
+      (collectSels s none sels ([], [])).1.all (fun q => q.2.all fun e => decide (entryRank ρ e + 2 ≤ ρ i))
+  | _ => true
+
+def rankSynB (s : SchemaD) (d : Doc) (ρ : Nat → Nat) (R : Nat) : Bool := (nodes d).all (nodeRankSyn s ρ R)
+
+mutual
+/-- twice the syntactic nesting height (+2) of a selection list; spreads are not followed -/
+def synRankSel : Sel → Nat
+  | .field _ _ _ _ hasSub _ sub => if hasSub then synRankSels sub + 2 else 2
+  | .spread _ _ => 2
+  | .inline _ _ _ sub => synRankSels sub
+def synRankSels : List Sel → Nat
+  | [] => 2
+  | x :: xs => max (synRankSel x) (synRankSels xs)
+end
+
+def synRanks (d : Doc) : List (Nat × Nat) :=
+  (nodes d).filterMap fun
+    | .selectionSet i sels => some (i, synRankSels sels)
+    | _ => none
+
+def maxRank (l : List (Nat × Nat)) : Nat := l.foldl (fun m p => max m p.2) 2
+
+end PyGql.Validate
